@@ -108,6 +108,14 @@ def run(ctx):
         inner = gen.cfg_line(c) + (" %d " % (deep % 2) if api == "tree" else " ") + vlib.mat_line(M)
         col.lines.append(("%d 0 %s" % (SUBS[api], inner), api, None))
         deep += 1
+    # the strong variants run a second phase on the transpose: wide full-row-rank products L*X (equimodular by construction, the
+    # transpose usually not) make the second phase matter; every k is injected
+    erng = ctx.rng.fork("c18-equistrong")
+    for l in gen.equi_cert_lines(erng, 40 if ctx.quick else 600, 6):
+        t = l.split()
+        m, n = int(t[2]), int(t[3])
+        mat = " ".join(t[2:4 + m * n])
+        col.lines.append(("%d 0 %d 0 %s" % (SUBS["equimod"], erng.choice([1, 3]), mat), "equimod", None))
     evaluate(ctx, col.lines)
 
 
